@@ -216,31 +216,31 @@ LATER = {
            "propagate NaN (R-NANFINAL), the -1 of get_indexer is consulted before use as a position (R-INDEXER), explicit axis tuples are sorted "
            "before positional use (R-AXISORDER).",
     "C03": "every stage of one combine runs with the caller's `sort` (R-PASSTHROUGH[sort]). Every tree node reads its whole partition (R-WHOLEPART); the last intermediate is taken for counts only under the counter's guard (R-COUNTER).",
-    "C04": "isfinite is never a validity mask (R-FINITE); finalizers propagate NaN (R-NANFINAL).",
+    "C04": "isfinite is never a validity mask (R-FINITE); finalizers propagate NaN (R-NANFINAL). NaN-skipping kernels answer all-NaN groups with their fill (R-ALLNANFILL); variance finalizer clamped NaN-propagatingly (R-NANFINAL).",
     "C05": "every path of the dtype normaliser passes the fill-value widening (R-FILLWIDEN); get_indexer's -1 is consulted (R-INDEXER); "
            "code/label producers (R-IDENTITYCODES, R-LABELVALUE, R-MISSINGCODE). Absent-slot mask for every source of memberless slots (R-ABSENTMASK), fill written only into values of the final dtype (R-FILLCAST), integer fills widen by value (R-FILLWIDEN), gathers use from_.get_indexer(to) (R-INDEXDIR), the xarray wrapper forwards options unchanged (R-PASSTHROUGH[options]).",
-    "C06": "no Fortran-order flatten for first/last (R-FORDER). An engine that cannot honour the intermediate fill of arg reductions is refused for chunked data (R-ENGINEFILL).",
-    "C07": "grouper transposition uses the forward permutation (R-PAIRS[transpose]); code producers and closed sides (R-CODEWIDTH ... R-CODELABELS). Per-grouper sequences iterate the groupers in order (R-PAIRS[groupers]); all four members of pandas' closed alphabet and one representation for labels and edges (R-CLOSEDSIDE); product grids masked (R-ABSENTMASK).",
+    "C06": "no Fortran-order flatten for first/last (R-FORDER). An engine that cannot honour the intermediate fill of arg reductions is refused for chunked data (R-ENGINEFILL). NaN-skipping extreme kernels never store NaN (R-ALLNANFILL).",
+    "C07": "grouper transposition uses the forward permutation (R-PAIRS[transpose]); code producers and closed sides (R-CODEWIDTH ... R-CODELABELS). Per-grouper sequences iterate the groupers in order (R-PAIRS[groupers]); all four members of pandas' closed alphabet and one representation for labels and edges (R-CLOSEDSIDE); product grids masked (R-ABSENTMASK). Requested labels / edges wrapped without lossy casts (R-EDGEVALUE); contiguity of intervals consulted (R-CLOSEDSIDE).",
     "C08": "axis range refused (R-AXISRANGE), size-1 label dimensions broadcast for any number of reduced axes (R-PAIRS[broadcast*]), "
-           "explicit axis tuples sorted before positional use (R-AXISORDER).",
+           "explicit axis tuples sorted before positional use (R-AXISORDER). Unknown labels refused for every partial-axis reduction (R-PARTIALUNKNOWN); split factors looked up by axis (R-AXISKEY).",
     "C09": "get_indexer's -1 consulted (R-INDEXER); dask's key array indexed with an open mesh over every axis (R-MESHINDEX); the block-id "
-           "shortcut of the incidence matrix is guarded per chunk (R-BITMASK). Every tree node reads its whole partition (R-WHOLEPART).",
+           "shortcut of the incidence matrix is guarded per chunk (R-BITMASK). Every tree node reads its whole partition (R-WHOLEPART). Block sets become slices only under an element-wise check (R-SLICEEXACT).",
     "C10": "the dask pre-scan accumulates in the blueprint dtype (R-SCANACC); run-start kernels handle an empty axis (R-EMPTYKERNEL); "
-           "missing-value shortcuts only for kinds without one (R-KINDMISSING, one open known finding).",
+           "missing-value shortcuts only for kinds without one (R-KINDMISSING, one open known finding). Single-group shortcuts bound both ends of the code range (R-ONESIDED); missing labels refused up front for cumulative scans (R-SCANMISSING).",
     "C11": "input representation restored under head flags only and never for integer-valued results (R-ROUNDTRIP); fill widening on every path "
            "(R-FILLWIDEN); blockwise plans see broadcast labels (R-BLOCKBCAST); chunk / index / key tuples have one entry per dimension for "
            "every number of reduced axes (R-ARITY, a tuple-arity algebra). maybe_promote is the identity on dtypes with a missing value (R-PROMOTEIDEM); predicates treat names and Aggregation objects alike (R-PREDFAMILY); fill written after the final cast (R-FILLCAST).",
-    "C12": "placeholder labels of all-missing blocks are typed like the labels (R-PLACEHOLDER).",
+    "C12": "placeholder labels of all-missing blocks are typed like the labels (R-PLACEHOLDER). Unknown labels refused for every partial-axis reduction (R-PARTIALUNKNOWN).",
     "C13": "property getters of graph-embedded classes do not write through self (R-GETTER); caller containers copied (R-CAPTURE).",
     "C14": "no task writes through its input (R-PURE). Caller containers are copied before being stored (R-CAPTURE); the engine is part of the graph keys (R-TOKEN).",
-    "C16": "per-block and combine-step label lists follow `sort` (R-BLOCKLABELS).",
+    "C16": "per-block and combine-step label lists follow `sort` (R-BLOCKLABELS). The finalizer's re-index is skipped only for order-equal labels (R-REINDEXSKIP); per-block label lists in block order (R-BLOCKLABELS).",
     "C18": "quantile levels bounded to [0, 1] (R-QRANGE); renames in the dispatcher keep the NaN discipline (R-DISPATCH). Vector-quantile dimensions in every arm and end-relative squeezing (R-ARITY), no-valid-member masking (R-NOVALID), out= buffers alias no later read (R-OUTALIAS).",
     "C19": "necessary conditions of 'auto works wherever map-reduce does': refusals after the plan choice are anticipated by _choose_method "
            "(R-AUTOREFUSE), refusals keyed on a user option by the proposal guard (R-AUTOPARAM), the planner never proposes cohorts with an empty "
            "map (R-EMPTYCOHORTS); and of clean refusal: alignment / axis range / quantile range / dtype normalisation refusals dominate the kernels, "
            "refusals test the normalised form of two-spelling options (R-NORMFORM), no in-place mutation of a definite tuple (R-SEQKIND), "
            "blockwise plans see broadcast labels (R-BLOCKBCAST), tuple arities hold for every number of axes (R-ARITY), the key array is meshed "
-           "(R-MESHINDEX), axis tuples are sorted (R-AXISORDER). Sixth wave: integer positions for np.unravel_index (R-INTINDEX), no in-place float results in user-typed buffers (R-INPLACECAST), typed placeholder labels (R-PLACEHOLDER), predicate family (R-PREDFAMILY), engine/fill refusal (R-ENGINEFILL).",
+           "(R-MESHINDEX), axis tuples are sorted (R-AXISORDER). Sixth wave: integer positions for np.unravel_index (R-INTINDEX), no in-place float results in user-typed buffers (R-INPLACECAST), typed placeholder labels (R-PLACEHOLDER), predicate family (R-PREDFAMILY), engine/fill refusal (R-ENGINEFILL). Eager arg-reduction kernels run in an integer dtype (R-INTINDEX kernel clause); same-length gathers guarded for emptiness (R-EMPTYIDX).",
     "C20": "isfinite never a validity mask (R-FINITE), padding identities never mistaken for absence (R-COLLIDE), wide validity counts (R-COUNTWIDTH). Accumulation dtype forwarded / squares widened (R-ACCFORWARD), variance shift width (R-VARSHIFT[width]), complex identities folded (R-INFRESOLVE), NaN substitutes keep infinities (R-DISPATCH).",
 }
 for _p, _t in LATER.items():
